@@ -71,6 +71,9 @@ pub trait ProgProperty {
     fn floors(&self, _tier: Tier) -> Vec<(&'static str, u64)> {
         vec![]
     }
+    fn fuzz_target(&self) -> Option<&'static str> {
+        None
+    }
     fn input_strategy(&self) -> BoxedStrategy<Vec<u8>> {
         bf::input_bytes()
     }
@@ -196,6 +199,14 @@ impl<T: ProgProperty> Property for PP<T> {
     }
     fn floors(&self, tier: Tier) -> Vec<(&'static str, u64)> {
         self.0.floors(tier)
+    }
+    fn fuzz_target(&self) -> Option<&'static str> {
+        self.0.fuzz_target()
+    }
+    fn decode_fuzz(&self, bytes: &[u8]) -> Option<ProgCase> {
+        let mut u = arbitrary::Unstructured::new(bytes);
+        let p = crate::fuzzdec::prog(&mut u).ok()?;
+        self.case_from_text(&p.program, &p.input, p.bits, [0; 5])
     }
     fn case_from_text(&self, program: &str, input: &[u8], bits: u32, sel: [u32; 5]) -> Option<ProgCase> {
         let g = (ProgAst::Text(program.to_string()), input.to_vec(), bits, Sel { level: sel[0], a: sel[1], b: sel[2], c: sel[3], d: sel[4] });
